@@ -153,10 +153,29 @@ def build_kernel(api, spec):
     if spec["v"] not in VARIANTS[api]:
         raise HarnessError(f"variant {spec['v']} not valid for {api}")
     Config.get().api = api
-    info = None if FRESH_PARSE[0] else _PARSED.get((api, alg))
+    upper = bool(spec.get("uc"))
+    info = None if FRESH_PARSE[0] else _PARSED.get((api, alg, upper))
     if info is None:
-        _, info = parse(os.path.join(_base_path(), DIRS[api], alg), api=api)
-        _PARSED[(api, alg)] = info
+        srcdir = os.path.join(_base_path(), DIRS[api])
+        if not upper:
+            _, info = parse(os.path.join(srcdir, alg), api=api)
+        else:
+            # same algorithm, but it names the kernel module '<base>_MOD'
+            with open(os.path.join(srcdir, alg)) as fin:
+                text = fin.read()
+            text, nsub = re.subn(rf"(?i)(\buse\s+{base})_mod\b", r"\1_MOD",
+                                 text)
+            if nsub != 1:
+                raise HarnessError(f"cannot upper-case module of {spec}")
+            tmpdir = tempfile.mkdtemp(prefix="c29alg_")
+            try:
+                path = os.path.join(tmpdir, alg)
+                with open(path, "w") as fout:
+                    fout.write(text)
+                _, info = parse(path, api=api, kernel_paths=[srcdir])
+            finally:
+                shutil.rmtree(tmpdir, ignore_errors=True)
+        _PARSED[(api, alg, upper)] = info
     psy = PSyFactory(api, distributed_memory=False).create(info)
     kern = psy.invokes.invoke_list[inv].schedule.coded_kernels()[kidx]
     if not kern.module_name.lower() == base + "_mod":
@@ -286,11 +305,15 @@ def psy_layer_problem(psy, kern):
 _REF = {}
 
 
+def ident(api, one):
+    """Identity of the kernel a spec produces."""
+    return (KERNELS[api][one["k"]][4], one["v"], bool(one.get("uc")))
+
+
 def reference(api, spec, k):
     """Content written by this kernel when it runs alone and gets suffix
     _k (files _0 .. _k-1 already exist)."""
-    canon = KERNELS[api][spec["k"]][4]
-    key = (api, canon, spec["v"], k)
+    key = (api,) + ident(api, spec) + (k,)
     if key in _REF:
         return _REF[key]
     cs.install()
@@ -363,8 +386,9 @@ def judge(case, out):
 
     def tag(run):
         phase = "pre" if run["id"] < 0 else "run"
-        ident = run["id"] + out["npre"] if run["id"] < 0 else run["id"]
-        return f"{phase}{ident}({run['spec']['k']}/{run['spec']['v']})"
+        num = run["id"] + out["npre"] if run["id"] < 0 else run["id"]
+        uc_ = "/MOD" if run["spec"].get("uc") else ""
+        return f"{phase}{num}({run['spec']['k']}/{run['spec']['v']}{uc_})"
 
     for kind, rid, base in out["leaks"]:
         fails.append(("fd-leak", f"{kind} on {base} opened by run "
@@ -630,8 +654,11 @@ def explore(case, prefix, visit):
     return count
 
 
-def spec(kern, variant):
-    return {"k": kern, "v": variant}
+def spec(kern, variant, upper=False):
+    one = {"k": kern, "v": variant}
+    if upper:
+        one["uc"] = True
+    return one
 
 
 def enum_configs(tier):
@@ -664,6 +691,13 @@ def enum_configs(tier):
                                   "runs": [spec(kern, pair[0]),
                                            spec(kern, pair[1])],
                                   "pre": pre, "foreign": foreign}, 2))
+    # a kernel whose module is named '<base>_MOD' in the algorithm layer
+    for api in ("gocean", "lfric"):
+        kern = kern_of[api]
+        for scheme in ("multiple", "single"):
+            cfgs.append(({"api": api, "scheme": scheme,
+                          "runs": [spec(kern, "acc", True)],
+                          "pre": [spec(kern, "acc")], "foreign": []}, 0))
     other = {"gocean": ("cu2", "ts"), "lfric": ("tk4", "qr")}
     for api in ("gocean", "lfric"):
         if tier == "quick" and api == "lfric":
@@ -709,7 +743,8 @@ def sampled_cases(draw, nruns_choices):
     # few variants so that identical kernels are frequent
     var_pool = draw(st.lists(st.sampled_from(VARIANTS[api]), min_size=1,
                              max_size=2, unique=True))
-    spec_st = st.builds(spec, kern_st, st.sampled_from(var_pool))
+    spec_st = st.builds(spec, kern_st, st.sampled_from(var_pool),
+                        st.sampled_from([False] * 9 + [True]))
     runs = [draw(spec_st) for _ in range(nruns)]
     pre = draw(st.lists(spec_st, max_size=1))
     foreign = draw(st.sampled_from([[], [], [], [0], [1], [0, 1]]))
@@ -906,12 +941,20 @@ def cls_single_read_before_write(case):
         return False
     api = case["api"]
     specs = list(case.get("pre", [])) + list(case["runs"])
-
-    def ident(one):
-        return (KERNELS[api][one["k"]][4], one["v"])
-
-    return any(wrt is not None and ident(specs[rdr]) == ident(specs[wrt])
+    return any(wrt is not None and
+               ident(api, specs[rdr]) == ident(api, specs[wrt])
                for rdr, wrt in model_single(case))
 
 
-CLASSIFIERS = {"single_read_before_write": cls_single_read_before_write}
+def cls_uppercase_mod_suffix(case):
+    """A run whose kernel module is named with a non-lower-case '_MOD'
+    suffix in the algorithm layer: rename_and_write strips the suffix
+    case-insensitively for the file name but _new_name() tests it
+    case-sensitively, so module '<base>_MOD_<n>_mod' ends up in file
+    '<base>_<n>_mod.f90' (every oracle clause on names fails for that run)."""
+    specs = list(case.get("pre", [])) + list(case.get("runs", []))
+    return any(one.get("uc") for one in specs)
+
+
+CLASSIFIERS = {"single_read_before_write": cls_single_read_before_write,
+               "uppercase_mod_suffix": cls_uppercase_mod_suffix}
